@@ -129,6 +129,9 @@ Inductive err :=
 | ELookupKind (path key param trav kind : string)     (* Can't continue lookup, X is a K *)
 | ERawString (kind : string)                          (* raw_string isn't implemented for *)
 | EKeyValueList                                       (* Unable to render ValueList as key segment *)
+| EJsonKey (kind : string)                            (* Can't serialize <kind> as JSON key *)
+| EJsonValueList                                      (* Can't serialize Value::ValueList as JSON *)
+| ETagged (tag : string)                              (* Tagged YAML values are not supported *)
 | ERenderNonMapping (kind : string)
 | EResolving (e : err)                                (* "While resolving references: " wrapper *)
 | EClassNotFound (cls : string)
